@@ -24,15 +24,26 @@
 //   babepre <value>               BABE pre-digest: <variant>.ToPreRuntimeDigest() and
 //                                 types.DecodeBabePreDigest of its Data
 //   breq <rd> <h:hex|n:num> <dir> <none|max>         BlockRequestMessage Encode / Decode
+//   breqp <rd> <h:hex|n:num> <dir> <none|max> <perm> BlockRequestMessage Encode, the fields of the
+//                                 encoding re-ordered (permutation number <perm>), Decode
+//   breqraw <k:v<hex num>|k:b<hex bytes>|x:<hex>>,... a BlockRequest written field by field (protowire;
+//                                 x:<hex> = raw bytes: truncated fields, invalid tags),
+//                                 BlockRequestMessage.Decode: foreign field orders, repeated fields, unknown
+//                                 fields, number / hash members of other lengths, missing from-block
 //   bresp <blockdata>,...|-                          BlockResponseMessage Encode / Decode, see c14RunResp
 // observables:
-//   val     -> <encoding> <decoded value | err> [<Header.Hash() of the built header>]
+//   val     -> <encoding> <decoded value | err | panic> [<hashes>]
 //              | err:build:<why> (the Go type cannot hold the value)
+//              Header: <hashes> = <Hash() of the built header> <Hash() of the header decoded from
+//              the encoding> <Hash() of DeepCopy() of the built, already hashed header>
+//              PrimHeader: <hashes> = <Hash() of the built generic header>
 //   dec     -> <decoded value> | err
 //   hashmut -> <hash before> <hash after> <encoding after>
 //   schema  -> <schema>
 //   babepre -> <ConsensusEngineID> <Data> <value decoded from Data | err>
 //   breq    -> <encoding> <rd> <h:hex|n:num> <dir> <none|max> | <encoding> err
+//   breqp   -> <re-ordered encoding> <rd> <h:hex|n:num> <dir> <none|max> | <re-ordered encoding> err
+//   breqraw -> <bytes> <rd> <h:hex|n:num> <dir> <none|max> | <bytes> err
 //   bresp   -> <encoding> <decoded block data list | err>
 package grandpa
 
@@ -47,12 +58,17 @@ import (
 
 	"github.com/ChainSafe/gossamer/dot/network/messages"
 	"github.com/ChainSafe/gossamer/dot/types"
+	clientgrandpa "github.com/ChainSafe/gossamer/internal/client/consensus/grandpa"
 	"github.com/ChainSafe/gossamer/internal/primitives/core/hash"
 	primgrandpa "github.com/ChainSafe/gossamer/internal/primitives/consensus/grandpa"
+	primruntime "github.com/ChainSafe/gossamer/internal/primitives/runtime"
+	"github.com/ChainSafe/gossamer/internal/primitives/runtime/generic"
 	"github.com/ChainSafe/gossamer/lib/common"
 	"github.com/ChainSafe/gossamer/lib/crypto/ed25519"
 	finality "github.com/ChainSafe/gossamer/pkg/finality-grandpa"
 	"github.com/ChainSafe/gossamer/pkg/scale"
+
+	"google.golang.org/protobuf/encoding/protowire"
 
 	vu "github.com/ChainSafe/gossamer/internal/verifutil"
 )
@@ -97,13 +113,24 @@ var c14Schemas = map[string]string{
 	"PrimCommit":          "{TargetHash:f32,TargetNumber:u4,Precommits:v<{Precommit:@PrimPrecommit,Signature:f64,ID:f32}>}",
 	"LocalizedPayload": "{Message:e[0=Prevote:@PrimPrecommit|1=Precommit:@PrimPrecommit|2=PrimaryPropose:@PrimPrecommit]," +
 		"RoundNumber:u8,SetID:u8}",
+	// finality-grandpa Message / SignedMessage as the primitives instantiate them
+	"PrimMessage":       "e[0=Prevote:@PrimPrecommit|1=Precommit:@PrimPrecommit|2=PrimaryPropose:@PrimPrecommit]",
+	"PrimSignedMessage": "{Message:@PrimMessage,Signature:f64,ID:f32}",
+	// Substrate's generic header (internal/primitives/runtime/generic.Header) and the GRANDPA
+	// justification with its vote ancestries
+	"PrimEnginePayload": "{ConsensusEngineID:f4,Bytes:b}",
+	"PrimDigestItem": "e[0=Other:b|4=Consensus:@PrimEnginePayload|5=Seal:@PrimEnginePayload|" +
+		"6=PreRuntime:@PrimEnginePayload|8=RuntimeEnvironmentUpdated:{}]",
+	"PrimHeader":        "{ParentHash:f32,Number:c,StateRoot:f32,ExtrinsicsRoot:f32,Digest:v<@PrimDigestItem>}",
+	"PrimJustification": "{Round:u8,Commit:@PrimCommit,VoteAncestries:v<@PrimHeader>}",
 }
 
 // the types that are cases of the harness (the others above are only referenced)
 var c14Types = []string{"Header", "Digest", "Body", "BabeDigest", "BabeConsensusDigest",
 	"GrandpaConsensusDigest", "GrandpaVote", "GrandpaSignedVote", "Commit", "Justification",
 	"GrandpaVoters", "GrandpaEquivocationProof", "FullVote", "GrandpaMessage", "AuthorityList",
-	"PrimScheduledChange", "PrimCommit", "LocalizedPayload"}
+	"PrimScheduledChange", "PrimCommit", "LocalizedPayload",
+	"PrimMessage", "PrimSignedMessage", "PrimHeader", "PrimJustification"}
 
 type c14S struct {
 	kind   byte // 'u' 'c' 'f' 'b' 'v' 'o' 's' 'e'
@@ -515,6 +542,15 @@ func (s *c14S) variant(idx int) (int, bool) {
 	return 0, false
 }
 
+// c14TypeName is the name of a Go type without the type arguments of a generic type.
+func c14TypeName(t reflect.Type) string {
+	n := t.Name()
+	if i := strings.IndexByte(n, '['); i >= 0 {
+		n = n[:i]
+	}
+	return n
+}
+
 // c14Build stores value v of schema s into dst (addressable).
 func c14Build(s *c14S, v *c14V, dst reflect.Value) error {
 	switch s.kind {
@@ -580,7 +616,7 @@ func c14Build(s *c14S, v *c14V, dst reflect.Value) error {
 			return fmt.Errorf("%w%d", errC14Variant, v.idx)
 		}
 		// the index must select the Go type that stands for the specified variant
-		if got := reflect.TypeOf(zero).Name(); got != s.names[i] {
+		if got := c14TypeName(reflect.TypeOf(zero)); got != s.names[i] {
 			return fmt.Errorf("%w%d_is_%s_not_%s", errC14Variant, v.idx, got, s.names[i])
 		}
 		nv := reflect.New(reflect.TypeOf(zero)).Elem()
@@ -669,7 +705,7 @@ func c14Read(s *c14S, src reflect.Value) (*c14V, error) {
 		if !ok {
 			return nil, fmt.Errorf("variant %d not in the schema", idx)
 		}
-		if got := reflect.TypeOf(val).Name(); got != s.names[i] {
+		if got := c14TypeName(reflect.TypeOf(val)); got != s.names[i] {
 			return nil, fmt.Errorf("variant %d is %s, not %s", idx, got, s.names[i])
 		}
 		e, err := c14Read(s.parts[i], reflect.ValueOf(val))
@@ -852,6 +888,147 @@ var c14Codecs = map[string]c14Codec{
 			return &c14V{kind: 'e', idx: idx, list: []*c14V{e}}, nil
 		},
 	},
+	// PrimMessage: finality-grandpa Message[H256, uint32] built with NewMessage (as the code
+	// does), scale.Marshal / scale.Unmarshal into a fresh Message
+	"PrimMessage": {
+		run: func(s *c14S, v *c14V) ([]byte, any, error) {
+			msg, err := c14PrimMessage(s, v)
+			if err != nil {
+				return nil, nil, err
+			}
+			enc, err := scale.Marshal(msg)
+			if err != nil {
+				return nil, nil, fmt.Errorf("marshal: %w", err)
+			}
+			return enc, nil, nil
+		},
+		dec: func(s *c14S, b []byte) (*c14V, error) {
+			var m finality.Message[hash.H256, uint32]
+			if err := scale.Unmarshal(b, &m); err != nil {
+				return nil, err
+			}
+			return c14Read(s, reflect.ValueOf(&m).Elem())
+		},
+	},
+	// PrimSignedMessage: primitives SignedMessage[H256, uint32]
+	"PrimSignedMessage": {
+		run: func(s *c14S, v *c14V) ([]byte, any, error) {
+			var sm primgrandpa.SignedMessage[hash.H256, uint32]
+			rv := reflect.ValueOf(&sm).Elem()
+			for i, n := range v.names {
+				j, ok := s.field(n)
+				if !ok {
+					return nil, nil, fmt.Errorf("no field %s", n)
+				}
+				if n == "Message" {
+					msg, err := c14PrimMessage(s.parts[j], v.list[i])
+					if err != nil {
+						return nil, nil, err
+					}
+					sm.Message = msg
+				} else if err := c14Build(s.parts[j], v.list[i], rv.FieldByName(n)); err != nil {
+					return nil, nil, err
+				}
+			}
+			enc, err := scale.Marshal(sm)
+			if err != nil {
+				return nil, nil, fmt.Errorf("marshal: %w", err)
+			}
+			return enc, nil, nil
+		},
+		dec: func(s *c14S, b []byte) (*c14V, error) {
+			var sm primgrandpa.SignedMessage[hash.H256, uint32]
+			if err := scale.Unmarshal(b, &sm); err != nil {
+				return nil, err
+			}
+			return c14Read(s, reflect.ValueOf(&sm).Elem())
+		},
+	},
+	// PrimHeader: generic.Header[uint32, H256, BlakeTwo256] built with NewHeader, read back
+	// through its accessors
+	"PrimHeader": {
+		run: func(s *c14S, v *c14V) ([]byte, any, error) {
+			h, err := c14PrimHeader(s, v)
+			if err != nil {
+				return nil, nil, err
+			}
+			enc, err := scale.Marshal(*h)
+			if err != nil {
+				return nil, nil, fmt.Errorf("marshal: %w", err)
+			}
+			return enc, h, nil
+		},
+		dec: func(s *c14S, b []byte) (*c14V, error) {
+			var h generic.Header[uint32, hash.H256, primruntime.BlakeTwo256]
+			if err := scale.Unmarshal(b, &h); err != nil {
+				return nil, err
+			}
+			return c14ReadPrimHeader(s, &h)
+		},
+	},
+	// PrimJustification: primitives GrandpaJustification[H256, uint32]; decoded with the
+	// client's DecodeJustification (the only decoder of the type)
+	"PrimJustification": {
+		run: func(s *c14S, v *c14V) ([]byte, any, error) {
+			var j primgrandpa.GrandpaJustification[hash.H256, uint32]
+			rv := reflect.ValueOf(&j).Elem()
+			for i, n := range v.names {
+				k, ok := s.field(n)
+				if !ok {
+					return nil, nil, fmt.Errorf("no field %s", n)
+				}
+				if n == "VoteAncestries" {
+					j.VoteAncestries = make([]primruntime.Header[uint32, hash.H256], 0, len(v.list[i].list))
+					for _, hv := range v.list[i].list {
+						h, err := c14PrimHeader(s.parts[k].elem, hv)
+						if err != nil {
+							return nil, nil, err
+						}
+						j.VoteAncestries = append(j.VoteAncestries, h)
+					}
+				} else if err := c14Build(s.parts[k], v.list[i], rv.FieldByName(n)); err != nil {
+					return nil, nil, err
+				}
+			}
+			enc, err := scale.Marshal(j)
+			if err != nil {
+				return nil, nil, fmt.Errorf("marshal: %w", err)
+			}
+			return enc, nil, nil
+		},
+		dec: func(s *c14S, b []byte) (*c14V, error) {
+			dj, err := clientgrandpa.DecodeJustification[hash.H256, uint32, primruntime.BlakeTwo256](b)
+			if err != nil {
+				return nil, err
+			}
+			j := dj.Justification
+			out := &c14V{kind: 's', names: s.names}
+			for i, n := range s.names {
+				if n == "VoteAncestries" {
+					l := &c14V{kind: 'l'}
+					for _, h := range j.VoteAncestries {
+						gh, ok := h.(*generic.Header[uint32, hash.H256, primruntime.BlakeTwo256])
+						if !ok {
+							return nil, fmt.Errorf("ancestry header is %T", h)
+						}
+						e, err := c14ReadPrimHeader(s.parts[i].elem, gh)
+						if err != nil {
+							return nil, err
+						}
+						l.list = append(l.list, e)
+					}
+					out.list = append(out.list, l)
+					continue
+				}
+				e, err := c14Read(s.parts[i], reflect.ValueOf(&j).Elem().FieldByName(n))
+				if err != nil {
+					return nil, err
+				}
+				out.list = append(out.list, e)
+			}
+			return out, nil
+		},
+	},
 	// LocalizedPayload: NewLocalizedPayload(round, setID, message); encode only
 	"LocalizedPayload": {
 		run: func(s *c14S, v *c14V) ([]byte, any, error) {
@@ -889,6 +1066,149 @@ var c14Codecs = map[string]c14Codec{
 	},
 }
 
+func (s *c14S) field(name string) (int, bool) {
+	for i, n := range s.names {
+		if n == name {
+			return i, true
+		}
+	}
+	return 0, false
+}
+
+// c14PrimMessage builds a finality-grandpa Message from a value of schema PrimMessage.
+func c14PrimMessage(s *c14S, v *c14V) (finality.Message[hash.H256, uint32], error) {
+	var none finality.Message[hash.H256, uint32]
+	i, ok := s.variant(v.idx)
+	if !ok {
+		return none, fmt.Errorf("schema has no variant %d", v.idx)
+	}
+	var tgt struct {
+		TargetHash   hash.H256
+		TargetNumber uint32
+	}
+	if err := c14Build(s.parts[i], v.list[0], reflect.ValueOf(&tgt).Elem()); err != nil {
+		return none, err
+	}
+	switch s.names[i] {
+	case "Prevote":
+		return finality.NewMessage(finality.Prevote[hash.H256, uint32]{TargetHash: tgt.TargetHash, TargetNumber: tgt.TargetNumber}), nil
+	case "Precommit":
+		return finality.NewMessage(finality.Precommit[hash.H256, uint32]{TargetHash: tgt.TargetHash, TargetNumber: tgt.TargetNumber}), nil
+	case "PrimaryPropose":
+		return finality.NewMessage(finality.PrimaryPropose[hash.H256, uint32]{TargetHash: tgt.TargetHash, TargetNumber: tgt.TargetNumber}), nil
+	}
+	return none, fmt.Errorf("%w%d", errC14Variant, v.idx)
+}
+
+// c14PrimHeader builds a generic header from a value of schema PrimHeader (the digest items are
+// chosen by the variant's name: internal/primitives/runtime has no index table for them).
+func c14PrimHeader(s *c14S, v *c14V) (*generic.Header[uint32, hash.H256, primruntime.BlakeTwo256], error) {
+	var f struct {
+		ParentHash, StateRoot, ExtrinsicsRoot hash.H256
+		Number                                uint32
+	}
+	var digest primruntime.Digest
+	for i, n := range v.names {
+		j, ok := s.field(n)
+		if !ok {
+			return nil, fmt.Errorf("no field %s", n)
+		}
+		if n != "Digest" {
+			if err := c14Build(s.parts[j], v.list[i], reflect.ValueOf(&f).Elem().FieldByName(n)); err != nil {
+				return nil, err
+			}
+			continue
+		}
+		is := s.parts[j].elem
+		for _, it := range v.list[i].list {
+			k, ok := is.variant(it.idx)
+			if !ok {
+				return nil, fmt.Errorf("schema has no variant %d", it.idx)
+			}
+			var item any
+			switch is.names[k] {
+			case "Other":
+				item = primruntime.Other(append([]byte{}, it.list[0].bytes...))
+			case "RuntimeEnvironmentUpdated":
+				item = primruntime.RuntimeEnvironmentUpdated{}
+			default:
+				var pl struct {
+					ConsensusEngineID primruntime.ConsensusEngineID
+					Bytes             []byte
+				}
+				if err := c14Build(is.parts[k], it.list[0], reflect.ValueOf(&pl).Elem()); err != nil {
+					return nil, err
+				}
+				switch is.names[k] {
+				case "Consensus":
+					item = primruntime.Consensus{ConsensusEngineID: pl.ConsensusEngineID, Bytes: pl.Bytes}
+				case "Seal":
+					item = primruntime.Seal{ConsensusEngineID: pl.ConsensusEngineID, Bytes: pl.Bytes}
+				case "PreRuntime":
+					item = primruntime.PreRuntime{ConsensusEngineID: pl.ConsensusEngineID, Bytes: pl.Bytes}
+				default:
+					return nil, fmt.Errorf("%w%d", errC14Variant, it.idx)
+				}
+			}
+			digest.Push(item)
+		}
+	}
+	return generic.NewHeader[uint32, hash.H256, primruntime.BlakeTwo256](f.Number, f.ExtrinsicsRoot, f.StateRoot, f.ParentHash, digest), nil
+}
+
+func c14ReadPrimHeader(s *c14S, h *generic.Header[uint32, hash.H256, primruntime.BlakeTwo256]) (*c14V, error) {
+	out := &c14V{kind: 's', names: s.names}
+	fix := func(x hash.H256) *c14V {
+		b := make([]byte, 32)
+		copy(b, x)
+		return &c14V{kind: 'x', bytes: b}
+	}
+	for i, n := range s.names {
+		switch n {
+		case "ParentHash":
+			out.list = append(out.list, fix(h.ParentHash()))
+		case "StateRoot":
+			out.list = append(out.list, fix(h.StateRoot()))
+		case "ExtrinsicsRoot":
+			out.list = append(out.list, fix(h.ExtrinsicsRoot()))
+		case "Number":
+			out.list = append(out.list, &c14V{kind: 'n', num: uint64(h.Number())})
+		case "Digest":
+			is := s.parts[i].elem
+			l := &c14V{kind: 'l'}
+			for _, it := range h.Digest().Logs {
+				name := ""
+				var payload *c14V
+				pl := func(id primruntime.ConsensusEngineID, b []byte) *c14V {
+					return &c14V{kind: 's', names: []string{"ConsensusEngineID", "Bytes"},
+						list: []*c14V{{kind: 'x', bytes: append([]byte{}, id[:]...)}, {kind: 'x', bytes: b}}}
+				}
+				switch x := it.(type) {
+				case primruntime.Other:
+					name, payload = "Other", &c14V{kind: 'x', bytes: []byte(x)}
+				case primruntime.Consensus:
+					name, payload = "Consensus", pl(x.ConsensusEngineID, x.Bytes)
+				case primruntime.Seal:
+					name, payload = "Seal", pl(x.ConsensusEngineID, x.Bytes)
+				case primruntime.PreRuntime:
+					name, payload = "PreRuntime", pl(x.ConsensusEngineID, x.Bytes)
+				case primruntime.RuntimeEnvironmentUpdated:
+					name, payload = "RuntimeEnvironmentUpdated", &c14V{kind: 's'}
+				default:
+					return nil, fmt.Errorf("digest item %T", it)
+				}
+				k, ok := is.field(name)
+				if !ok {
+					return nil, fmt.Errorf("no variant %s", name)
+				}
+				l.list = append(l.list, &c14V{kind: 'e', idx: is.idx[k], list: []*c14V{payload}})
+			}
+			out.list = append(out.list, l)
+		}
+	}
+	return out, nil
+}
+
 // ---------------------------------------------------------------- cases
 
 func c14RunVal(typ string, vs string) string {
@@ -905,15 +1225,42 @@ func c14RunVal(typ string, vs string) string {
 	out := vu.Hex(enc)
 	if codec.dec == nil {
 		out += " -"
-	} else if d, err := codec.dec(s, enc); err != nil {
-		out += " err"
 	} else {
-		out += " " + d.String()
+		out += " " + c14SafeDec(codec, s, enc)
 	}
-	if h, ok := built.(*types.Header); ok {
+	switch h := built.(type) {
+	case *types.Header:
 		out += " " + vu.Hex(h.Hash().ToBytes())
+		// the header decoded from the encoding, and a deep copy of the (already hashed) header
+		back := types.NewEmptyHeader()
+		if err := scale.Unmarshal(enc, back); err != nil {
+			out += " err"
+		} else {
+			out += " " + vu.Hex(back.Hash().ToBytes())
+		}
+		if cp, err := h.DeepCopy(); err != nil {
+			out += " err"
+		} else {
+			out += " " + vu.Hex(cp.Hash().ToBytes())
+		}
+	case *generic.Header[uint32, hash.H256, primruntime.BlakeTwo256]:
+		out += " " + vu.Hex(h.Hash().Bytes())
 	}
 	return out
+}
+
+// c14SafeDec runs a decoder; a panic inside it is the observation "panic".
+func c14SafeDec(codec c14Codec, s *c14S, b []byte) (res string) {
+	defer func() {
+		if p := recover(); p != nil {
+			res = "panic"
+		}
+	}()
+	d, err := codec.dec(s, b)
+	if err != nil {
+		return "err"
+	}
+	return d.String()
 }
 
 func c14RunDec(typ string, hx string) string {
@@ -922,11 +1269,7 @@ func c14RunDec(typ string, hx string) string {
 	if codec.dec == nil {
 		return "err:nodecoder"
 	}
-	d, err := codec.dec(s, vu.UnHex(hx))
-	if err != nil {
-		return "err"
-	}
-	return d.String()
+	return c14SafeDec(codec, s, vu.UnHex(hx))
 }
 
 func c14RunHashMut(v1, v2 string) string {
@@ -968,6 +1311,12 @@ func c14RunReq(f []string) string {
 	if err != nil {
 		return "err:encode"
 	}
+	if f[0] == "breqp" {
+		enc = c14PermuteFields(enc, vu.UnX(f[5]))
+		if enc == nil {
+			return "err:tokenise"
+		}
+	}
 	back := new(messages.BlockRequestMessage)
 	if err := back.Decode(enc); err != nil {
 		return vu.Hex(enc) + " err"
@@ -984,6 +1333,125 @@ func c14RunReq(f []string) string {
 		mx = vu.X(uint64(*back.Max))
 	}
 	return fmt.Sprintf("%s %s %s %s %s", vu.Hex(enc), vu.X(uint64(back.RequestedData)), fs, vu.X(uint64(back.Direction)), mx)
+}
+
+// c14PermuteFields re-orders the top-level fields of a protobuf message (Fisher-Yates driven by
+// the digits of p); only the tokeniser of protowire is used.
+func c14PermuteFields(enc []byte, p uint64) []byte {
+	var fields [][]byte
+	for rest := enc; len(rest) > 0; {
+		_, _, n := protowire.ConsumeField(rest)
+		if n <= 0 {
+			return nil
+		}
+		fields = append(fields, rest[:n])
+		rest = rest[n:]
+	}
+	for i := len(fields) - 1; i > 0; i-- {
+		j := int(p % uint64(i+1))
+		p /= uint64(i + 1)
+		fields[i], fields[j] = fields[j], fields[i]
+	}
+	out := []byte{}
+	for _, f := range fields {
+		out = append(out, f...)
+	}
+	return out
+}
+
+// breqraw: the message is written with protowire from the field list, then decoded.
+func c14RunReqRaw(spec string) string {
+	var enc []byte
+	if spec != "-" {
+		for _, fld := range strings.Split(spec, ",") {
+			kv := strings.SplitN(fld, ":", 2)
+			if kv[0] == "x" {
+				enc = append(enc, vu.UnHex(kv[1])...)
+				continue
+			}
+			num := protowire.Number(vu.UnX(kv[0]))
+			if kv[1][0] == 'v' {
+				enc = protowire.AppendTag(enc, num, protowire.VarintType)
+				enc = protowire.AppendVarint(enc, vu.UnX(kv[1][1:]))
+			} else {
+				enc = protowire.AppendTag(enc, num, protowire.BytesType)
+				enc = protowire.AppendBytes(enc, vu.UnHex(kv[1][1:]))
+			}
+		}
+	}
+	return c14DecodeReq(enc)
+}
+
+func c14DecodeReq(enc []byte) string {
+	back := new(messages.BlockRequestMessage)
+	if err := back.Decode(enc); err != nil {
+		return vu.Hex(enc) + " err"
+	}
+	fs := ""
+	switch x := back.StartingBlock.RawValue().(type) {
+	case uint:
+		fs = "n:" + vu.X(uint64(x))
+	case common.Hash:
+		fs = "h:" + vu.Hex(x.ToBytes())
+	}
+	mx := "none"
+	if back.Max != nil {
+		mx = vu.X(uint64(*back.Max))
+	}
+	return fmt.Sprintf("%s %s %s %s %s", vu.Hex(enc), vu.X(uint64(back.RequestedData)), fs, vu.X(uint64(back.Direction)), mx)
+}
+
+// c14GenReqRaw: field lists around every branch of BlockRequestMessage.Decode.
+func c14GenReqRaw(r *vu.RNG) string {
+	var fl []string
+	add := func(s string) { fl = append(fl, s) }
+	num := func() string {
+		l := []int{4, 4, 4, 0, 1, 3, 5, 8}[r.Intn(8)]
+		return "3:b" + vu.Hex(r.Bytes(l))
+	}
+	hsh := func() string {
+		l := []int{32, 32, 32, 0, 1, 31, 33, 40}[r.Intn(8)]
+		return "2:b" + vu.Hex(r.Bytes(l))
+	}
+	if r.Chance(5, 6) {
+		add("1:v" + vu.X([]uint64{0, 1 << 24, 19 << 24, 255 << 24, 1, 0xffffffff, 1 << 32, 1<<32 + 19<<24, r.U64()}[r.Intn(9)]))
+	}
+	switch r.Intn(6) {
+	case 0:
+	case 1:
+		add(num())
+		add(hsh())
+	case 2:
+		add(hsh())
+		add(num())
+	case 3:
+		add(hsh())
+	default:
+		add(num())
+	}
+	if r.Chance(1, 2) {
+		add("5:v" + vu.X([]uint64{0, 1, 2, 255, 256, 257, 1 << 31, 1<<32 + 1}[r.Intn(8)]))
+	}
+	if r.Chance(1, 2) {
+		add("6:v" + vu.X([]uint64{0, 1, 128, 0xffffffff, 1 << 32, 1<<32 + 5}[r.Intn(6)]))
+	}
+	if r.Chance(1, 4) { // a repeated scalar field: the last one wins
+		add([]string{"1:v" + vu.X(uint64(r.Intn(256))<<24), "5:v1", "6:v7"}[r.Intn(3)])
+	}
+	if r.Chance(1, 4) { // unknown fields are skipped; a known number with the other wire type too
+		add([]string{"4:b" + vu.Hex(r.Bytes(r.Intn(5))), "9:v5", "63:b" + vu.Hex(r.Bytes(3)), "2:v7", "1:b00", "3:v1"}[r.Intn(6)])
+	}
+	for i := len(fl) - 1; i > 0; i-- {
+		j := r.Intn(i + 1)
+		fl[i], fl[j] = fl[j], fl[i]
+	}
+	if r.Chance(1, 8) { // malformed tail: tag without value, length beyond the input, unterminated varint, field number 0, group tags
+		fl = append(fl, "x:"+[]string{"08", "1a05aa", "ff", "00", "0b", "0c", "1a", "28ffffffffffffffffffff01", "0d", "09"}[r.Intn(10)])
+	}
+	if len(fl) == 0 {
+		return "breqraw -"
+	}
+	return "breqraw " + strings.Join(fl, ",")
 }
 
 // A block data list is a value of
@@ -1073,8 +1541,10 @@ func c14Run(in string) string {
 		return c14RunHashMut(f[1], f[2])
 	case "schema":
 		return c14SchemaOf(f[1]).String()
-	case "breq":
+	case "breq", "breqp":
 		return c14RunReq(f)
+	case "breqraw":
+		return c14RunReqRaw(f[1])
 	case "bresp":
 		return c14RunResp(f[1])
 	}
@@ -1139,8 +1609,12 @@ func c14GenCases(r *vu.RNG, n int, emit func(string)) {
 		case k < 9:
 			if r.Chance(1, 3) {
 				emit("babepre " + c14Gen(r, c14SchemaOf("BabeDigest"), 8).String())
-			} else {
+			} else if r.Chance(1, 3) {
 				emit(c14GenReq(r))
+			} else if r.Chance(1, 2) {
+				emit(c14GenReqRaw(r))
+			} else {
+				emit("breqp" + strings.TrimPrefix(c14GenReq(r), "breq") + " " + vu.X(uint64(r.Intn(24))))
 			}
 		case k < 11:
 			emit("bresp " + c14Gen(r, c14SchemaOf("BlockDataList"), 8).String())
